@@ -11,7 +11,7 @@ static uint64_t rnd_hook() { return (uint64_t)xv::choose((long)(g_k > 4 ? 4 : g_
 
 template <class R, class El> struct KF {
   using E = El; using queue = xenium::kirsch_kfifo_queue<typename El::type, xenium::policy::reclaimer<R>>;
-  static constexpr bool keeps_rejected = false;
+  static constexpr bool keeps_rejected = false; static constexpr bool strong_blocks = false;
   static queue* create() { return new queue(g_k); }
   static void cfg() { xv::ev("cfg", "kind_kfifo", (long)g_k); }
   static bool push(queue& q, typename El::type&& v) { q.push(std::move(v)); return true; }
@@ -22,7 +22,7 @@ template <class R, class El> struct KF {
 };
 template <class El> struct BKF {
   using E = El; using queue = xenium::kirsch_bounded_kfifo_queue<typename El::type>;
-  static constexpr bool keeps_rejected = false;
+  static constexpr bool keeps_rejected = false; static constexpr bool strong_blocks = false;
   static queue* create() { return new queue(g_k, g_segs); }
   static void cfg() { xv::ev("cfg", "kind_bkfifo", (long)g_k, (long)g_segs); }
   static bool push(queue& q, typename El::type&& v) { return q.try_push(std::move(v)); }
